@@ -372,3 +372,8 @@ def nontrivial(case, obs):
         if not info['ok'] and info['core'][0] in WRITES and info['st']['out'][1] != 'EBadHandle':
             return True
     return False
+
+
+def shrink(case, run):
+    import sys
+    return L.shrink(sys.modules[__name__], case, run)
